@@ -45,7 +45,7 @@ func costMaps(p *Prog) []drive.Opt {
 
 func c02(r *rep.Run) {
 	coreMax, richMax := 7, 6
-	r.SetBudget(100e9)
+	r.SetBudget(300e9)
 	if r.Thorough() {
 		coreMax, richMax = 7, 7
 		r.SetBudget(1500e9)
@@ -62,7 +62,7 @@ func c02(r *rep.Run) {
 	}
 	progs = withAliases(progs, aliasMax)
 	progs = withMerged(progs, 5)
-	progs = append(progs, loneLeafPrograms()...)
+	progs = append(loneLeafPrograms(), progs...)
 	r.Cov["programs_incl_alias_spellings"] = len(progs)
 	hs := harnesses(r.Workers)
 	base := optMatrix(0, 1)
